@@ -34,7 +34,7 @@ def rule_json_names(ctx):
     f = ctx.facts()
     r = RuleResult('JSON-NAMES', 'the key names SourceMap\'s serializer writes are exactly the key names the raw document reader '
                                  'accepts (plus the constant "version"), each paired with the namesake field')
-    r.floor = 15
+    r.floor = 12
     sm = anchors.adt_by_name(f, 'SourceMap')
     ser, keys, skips = _serialize_keys(f, sm['path'])
     # reader: the struct TryFrom consumes; its derived Deserialize has a FIELDS constant
